@@ -74,8 +74,8 @@ func init() {
 			}
 			id := e.newObjID(st, th, "timer")
 			zero := Struct{term.BVC(64, 0), term.BVC(64, 0), Ptr{}}
-			st.Heap[id] = &Object{Kind: OChan, Cap: 1, Closed: term.False, Buf: []Value{zero}, Site: "timer",
-				TimerAt: term.BVBin(term.OpAdd, now, d), ep: st.ep}
+			st.setObj(id, &Object{Kind: OChan, Cap: 1, Closed: term.False, Buf: []Value{zero}, Site: "timer",
+				TimerAt: term.BVBin(term.OpAdd, now, d), ep: st.ep})
 			return ChanRef{id}
 		}
 	})
